@@ -59,6 +59,22 @@ def cases(ctx):
     for _ in range(3):
         yield {"kind": "readd", "spec": [["inst", "n0", "world", _rigid(rng), "box"], ["inst", "n1", "world", _rigid(rng), "tet"]],
                "similarity": False}
+    # per-axis scaling of scenes whose frames all commute with diag(s): translations, half turns about the axes,
+    # a quarter turn about z with sx = sy - nested two and three deep, with an instanced geometry
+    def _tr(t, R=None):
+        M = np.eye(4)
+        if R is not None:
+            M[:3, :3] = R
+        M[:3, 3] = t
+        return M.tolist()
+    half_x, half_z = np.diag([1.0, -1.0, -1.0]), np.diag([-1.0, -1.0, 1.0])
+    quarter_z = np.array([[0.0, -1.0, 0.0], [1.0, 0.0, 0.0], [0.0, 0.0, 1.0]])
+    for sc, Rs in (([1.0, 2.0, 3.0], [None, half_x, half_z]), ([2.0, 2.0, 5.0], [quarter_z, half_z, None]),
+                   ([0.5, 4.0, 1.0], [None, None, None])):
+        yield {"kind": "transformers", "similarity": False, "seed": 1, "scale": sc, "M": _tr([1, 2, 3]), "other": [],
+               "spec": [["frame", "f0", "world", _tr([1, 0, 2], Rs[0])], ["frame", "f1", "f0", _tr([0, 3, 1], Rs[1])],
+                        ["inst", "n0", "f1", _tr([2, 1, 0], Rs[2]), "box"], ["inst", "n1", "f0", _tr([-1, 0, 4]), "box"],
+                        ["inst", "n2", "world", _tr([0, 0, 1], Rs[1]), "tet"]]}
     while True:
         sim = rng.random() < 0.5
         k = rng.choice(["quantities", "quantities", "transformers", "edits", "append_many", "readd"])
@@ -249,7 +265,15 @@ def _run_case_inner(c, keep):
         exp = W * np.asarray(sc)
         uniform = not isinstance(sc, list) or len(set(sc)) == 1
         if not np.allclose(_key(world(t)[2]), _key(exp), atol=1e-7):
-            res.append("scaled_uniform" if uniform else "scaled_per_axis")
+            # C10_scaled_per_axis_partial: exact whenever diag(s) commutes with the linear part of every edge;
+            # only the other case is the recorded finding
+            S_ = np.diag(np.asarray(sc, dtype=float)) if not uniform else None
+            commuting = (not uniform) and all(
+                np.allclose(S_ @ np.asarray(a_.get("matrix", np.eye(4)))[:3, :3],
+                            np.asarray(a_.get("matrix", np.eye(4)))[:3, :3] @ S_, atol=1e-12)
+                for a_ in s.graph.transforms.edge_data.values())
+            res.append("scaled_uniform" if uniform else
+                       ("scaled_per_axis_commuting_frames" if commuting else "scaled_per_axis"))
         else:
             check_quantities(t, res, "scaled:")
         M = np.array(c["M"])
